@@ -101,6 +101,18 @@ theorem dappend_ok (d : Dict) (k v : Bytes) (hd : DictOK d) (hk : CanonKey k) : 
 theorem dsetdefault_ok (d : Dict) (k : Bytes) (hd : DictOK d) (hk : CanonKey k) : DictOK (dsetdefault d k) :=
   dictOK_of_keys d _ k hd hk (keys_dsetdefault d k)
 
+/-- removing a name keeps the dict well formed (the remaining keys are a sublist) -/
+theorem dremove_ok (d : Dict) (k : Bytes) (hd : DictOK d) : DictOK (dremove d k) := by
+  refine ⟨fun p hp => hd.1 p (List.mem_filter.1 hp).1, ?_⟩
+  exact List.Sublist.nodup (List.Sublist.map _ List.filter_sublist) hd.2
+
+theorem dget_dremove_self (d : Dict) (k : Bytes) : dget (dremove d k) k = none := by
+  unfold dget dremove
+  rw [List.find?_filter]
+  have : d.find? (fun a => (!decide (a.1 = k)) && decide (a.1 = k)) = none := by
+    rw [List.find?_eq_none]; intro p _; by_cases h : p.1 = k <;> simp [h]
+  simpa using this
+
 theorem dget_map (d : Dict) (f : Bytes × List Bytes → Bytes × List Bytes) (hf : ∀ p, (f p).1 = p.1) (k' : Bytes) :
     dget (d.map f) k' = (d.find? (·.1 = k')).map fun p => (f p).2 := by
   unfold dget
